@@ -1432,8 +1432,13 @@ void observed_entry()
       for (int i = 0; i < 3; ++i)
       {
         ++calls;
-        surprises += !same_fp(d(g1), sd(g2));
+        // judged: the same member calls on both sides (draws and reset()) must keep the sequences identical
+        if (!same_fp(d(g1), sd(g2)))
+          vf::violation(std::string("distribution::basic::reset/normal<double>/") + E::name + "/sequence-after-reset", "mismatch",
+                        "seed " + std::to_string(seed) + " round " + std::to_string(round) + " draw " + std::to_string(i) +
+                            ": the draw differs from std::normal_distribution after the same draws and reset() calls");
       }
+      VF_COUNT("judged/reset-after-odd-number-of-draws");
       d.reset();
       sd.reset();
     }
